@@ -23,6 +23,10 @@ func init() {
 			"announced ids and scheduled groups derive from the same liveChildDescriptors result (initial frame, nested frames, sequence arm); the stream's Complete() is called only from a defer registered after the first successful Flush; defer groups use a plain errgroup that is joined; " +
 			"the defer normalization stages are registered in the documented order. It does not decide reconstruction equality with the non-deferred response.",
 		Mutants: []Mutant{
+			{Name: "lists of lists are not looked into while a defer is rendered (reverts the F57 fix)", File: "v2/pkg/engine/resolve/resolvable.go", Rule: "C10-R9", Key: "Resolvable.fieldNodeKindAllowsSeek/item-kind-reached-by-loop-or-recursion",
+				Old: "\t\titem := field.Value.(*Array).Item\n\t\tfor item.NodeKind() == NodeKindArray {\n\t\t\titem = item.(*Array).Item\n\t\t}\n\t\tif item.NodeKind() != NodeKindObject {", New: "\t\tif field.Value.(*Array).Item.NodeKind() != NodeKindObject {"},
+			{Name: "anchor gating ignores that the initial data was null (reverts part of the F58 fix)", File: "v2/pkg/engine/resolve/resolvable.go", Rule: "C10-R10", Key: "Resolvable.deferAnchorAlive/tests-the-data-null-record",
+				Old: "\tif r.data == nil || r.rootDataNull {\n", New: "\tif r.data == nil {\n"},
 			{Name: "label of the internal defer directive read without a kind test (reverts part of the F49 fix)", File: "v2/pkg/engine/plan/datasource_filter_collect_nodes_visitor.go", Rule: "C10-R8", Key: "treeBuilderVisitor.deferInfo/kind-matches-ref:StringValueContentString",
 				Old: "\tif exists && labelValue.Kind == ast.ValueKindString {\n", New: "\tif exists {\n"},
 			{Name: "field duplicated per concrete type by a hand-written literal without Defer/Stream (reverts the F33 fix)", File: "v2/pkg/engine/postprocess/merge_fields.go", Rule: "C10-R7", Key: "mergeFields.traverseNode/field-duplicate-carries-copy-fields",
@@ -53,6 +57,8 @@ func init() {
 
 func runC10(r *fw.Run) {
 	defer c10DeferScopedKeys(r)
+	defer c10SeekPredicateIsDepthIndependent(r)
+	defer c10NoDefersWhenDataIsNull(r)
 	defer func() {
 		r.Rule("C10-R7", "every hand-written duplicate of a resolve.Field in the post-processor / planner (a Field literal fed from another Field) sets every field that Field.Copy sets — in particular Defer and Stream")
 		fieldDuplicationsCarryCopyFields(r, "C10-R7")
@@ -690,4 +696,124 @@ func fieldDuplicationsCarryCopyFields(r *fw.Run, rule string) {
 	// after the repair of F33 every duplicate goes through Field.Copy: zero instances is the expected state, the positive
 	// control is the seeded mutant of the thorough tier (the hand-written literal of the unrepaired tree)
 	r.Pass(rule, "field-duplicates-scanned", "-", itoa(n)+" hand-written duplicates of resolve.Field in postprocess, plan and resolve examined (Field.Copy itself excluded)", true)
+}
+
+// c10SeekPredicateIsDepthIndependent (R9): while a defer is rendered, fields that do not belong to it are only *looked
+// into* to reach deferred fields below them. The predicate that decides whether a field is looked into
+// (fieldNodeKindAllowsSeek) must give the same answer for [T], [[T]], [[[T]]] … — list nesting is unbounded, so the item
+// kind has to be reached through a loop or through recursion; a fixed number of `.Item` steps decides a bounded depth only
+// and silently drops every deferred field below a deeper list (the deferred request is sent and merged, the frame carries
+// an empty incremental array and the defer is reported completed).
+func c10SeekPredicateIsDepthIndependent(r *fw.Run) {
+	p := r.Prog
+	r.Rule("C10-R9", "the predicate that decides whether a non-deferred field is looked into while a defer is rendered reaches the item of an Array inside a loop or through recursion (its answer does not depend on the nesting depth of lists)")
+	fi := p.Func("resolve", "Resolvable.fieldNodeKindAllowsSeek")
+	if fi == nil {
+		r.Error("C10-R9: Resolvable.fieldNodeKindAllowsSeek not found")
+		return
+	}
+	info := fi.Info()
+	itemReads, inLoopOrRec := 0, 0
+	var visit func(n ast.Node, inLoop bool)
+	visit = func(n ast.Node, inLoop bool) {
+		ast.Inspect(n, func(m ast.Node) bool {
+			switch x := m.(type) {
+			case *ast.ForStmt:
+				if x != n {
+					visit(x, true)
+					return false
+				}
+			case *ast.RangeStmt:
+				if x != n {
+					visit(x, true)
+					return false
+				}
+			case *ast.SelectorExpr:
+				if fv, _ := fw.Field(info, x); fv != nil && fv.Name() == "Item" {
+					if tv, ok := info.Types[x.X]; ok && fw.TypeIs(tv.Type, "resolve", "Array") {
+						itemReads++
+						if inLoop {
+							inLoopOrRec++
+						}
+					}
+				}
+			case *ast.CallExpr:
+				if fn := fw.Callee(info, x); fn == fi.Obj {
+					inLoopOrRec++ // recursion
+				}
+			}
+			return true
+		})
+	}
+	visit(fi.Decl.Body, false)
+	r.Check(itemReads > 0 && inLoopOrRec > 0, "C10-R9", "Resolvable.fieldNodeKindAllowsSeek/item-kind-reached-by-loop-or-recursion", fi.Pos(), "the seek predicate unwraps nested lists by a loop or by recursion",
+		"the item kind of a list is read a fixed number of times: for a list of lists the predicate answers 'do not look into it', the walk never reaches the cells, and every deferred field below [[T]] is fetched but never delivered (empty incremental array, defer reported completed)")
+	r.Expect("C10-R9", "reads of Array.Item in the seek predicate", itemReads, 1)
+}
+
+// c10NoDefersWhenDataIsNull (R10): when a non-null violation reaches the root, the initial payload is `"data":null` —
+// nothing of the data tree was delivered, so every defer anchor is dead: no pending entry, hasNext false, no deferred
+// request. The anchor gating (deferAnchorAlive) looks at the *internal* tree, which is not nulled at the root; it can
+// only know through a record: Resolve assigns a Resolvable field from the result of the root pre-walk (the value that
+// selects the `"data":null` branch), and deferAnchorAlive tests that field.
+func c10NoDefersWhenDataIsNull(r *fw.Run) {
+	p := r.Prog
+	r.Rule("C10-R10", "Resolve records in a Resolvable field that the initial payload was written with data:null (assigned from the result of the root pre-walk), and deferAnchorAlive tests that field: a nulled root announces and schedules no defer")
+	rs := p.Func("resolve", "Resolvable.Resolve")
+	da := p.Func("resolve", "Resolvable.deferAnchorAlive")
+	if rs == nil || da == nil {
+		r.Error("C10-R10: Resolvable.Resolve / deferAnchorAlive not found")
+		return
+	}
+	info := rs.Info()
+	// locals holding the result of walkObject in Resolve
+	walkResult := map[types.Object]bool{}
+	fw.WalkAll(rs.Decl.Body, func(nd ast.Node) bool {
+		as, ok := nd.(*ast.AssignStmt)
+		if !ok || len(as.Lhs) != 1 || len(as.Rhs) != 1 {
+			return true
+		}
+		if c, isCall := ast.Unparen(as.Rhs[0]).(*ast.CallExpr); isCall && fw.CallIs(info, c, "resolve", "Resolvable.walkObject") {
+			if id, isID := as.Lhs[0].(*ast.Ident); isID {
+				if o := info.Defs[id]; o != nil {
+					walkResult[o] = true
+				}
+			}
+		}
+		return true
+	})
+	record := map[*types.Var]bool{}
+	fw.WalkAll(rs.Decl.Body, func(nd ast.Node) bool {
+		as, ok := nd.(*ast.AssignStmt)
+		if !ok || len(as.Lhs) != len(as.Rhs) {
+			return true
+		}
+		for i, l := range as.Lhs {
+			fv, sel := fw.Field(info, l)
+			if fv == nil {
+				continue
+			}
+			if _, tn := fw.FieldOwner(info, sel); tn != "Resolvable" {
+				continue
+			}
+			if id, isID := ast.Unparen(as.Rhs[i]).(*ast.Ident); isID && walkResult[info.Uses[id]] {
+				record[fv] = true
+			}
+		}
+		return true
+	})
+	r.Check(len(record) > 0, "C10-R10", "Resolvable.Resolve/records-that-data-is-null", rs.Pos(), "Resolve stores the result of the root pre-walk (data:null or not) in a Resolvable field",
+		"nothing records that the initial payload was `\"data\":null`: the anchor gating looks at the internal tree, finds the mount objects, announces the defers (pending, hasNext:true), sends the deferred requests and delivers incremental data for paths that do not exist in what the client received")
+	reads := false
+	dinfo := da.Info()
+	fw.WalkAll(da.Decl.Body, func(nd ast.Node) bool {
+		if sel, ok := nd.(*ast.SelectorExpr); ok {
+			if fv, _ := fw.Field(dinfo, sel); fv != nil && record[fv] {
+				reads = true
+			}
+		}
+		return true
+	})
+	r.Check(reads, "C10-R10", "Resolvable.deferAnchorAlive/tests-the-data-null-record", da.Pos(), "deferAnchorAlive tests the record that the initial data was null",
+		"the anchor gating does not consult the record: defers are announced and scheduled although data is null")
 }
